@@ -772,6 +772,26 @@ def pred_semi_akima_four_points(scenario, info):
         all(f[0] == 'akima' and f[1] == 'MetaModelSemiStructuredComp' and f[2][0] == 'v' for f in fl)
 
 
+def install_tally(ctx, preds):
+    """count the reported disagreements by defect class (whether or not the class is listed in known_findings.json)"""
+    report = ctx.violation
+    tally = ctx.extra.setdefault('disagreeing_scenarios_by_class', {})
+
+    def violation(scenario, expected, observed, clause, snippet=None, info=None):
+        hit = []
+        for k, pred in preds.items():
+            try:
+                if pred(scenario, info or {'clause': clause, 'observed': observed}):
+                    hit.append(k)
+            except Exception:       # noqa: BLE001
+                pass
+        for k in hit or ['unclassified']:
+            tally[k] = tally.get(k, 0) + 1
+        return report(scenario, expected, observed, clause, snippet=snippet, info=info)
+
+    ctx.violation = violation
+
+
 def replay(ctx):
     """./check C15 --replay <file>: execute one stored scenario again (every method, InterpND and the component)
     against the stored spec outcome."""
@@ -798,11 +818,13 @@ def replay(ctx):
 
 
 def run(ctx):
-    ctx.register_predicates({'C15-negative-grid-eps': pred_negative_grid_eps,
-                             'C15-akima-four-point-grid': pred_akima_four_points,
-                             'C15-fixed-method-mixed-batch': pred_fixed_mixed_batch,
-                             'C15-semi-akima-unbound-local': pred_semi_akima_unbound,
-                             'C15-semi-akima-four-point-grid': pred_semi_akima_four_points})
+    preds = {'C15-negative-grid-eps': pred_negative_grid_eps,
+             'C15-akima-four-point-grid': pred_akima_four_points,
+             'C15-fixed-method-mixed-batch': pred_fixed_mixed_batch,
+             'C15-semi-akima-unbound-local': pred_semi_akima_unbound,
+             'C15-semi-akima-four-point-grid': pred_semi_akima_four_points}
+    ctx.register_predicates(preds)
+    install_tally(ctx, preds)
     if getattr(ctx, 'replay', None):
         return replay(ctx)
     quick = ctx.tier == 'quick'
